@@ -43,6 +43,7 @@ def shard(binpath, seed, sh, n):
     rng = common.rng_for(seed, PROP, sh)
     W = scen.World(binpath)
     res = common.Result()
+    weird = scen.unknown_scheme_keys(binpath)
     scs, reqs = [], []
     for i in range(n):
         pool = list(POOL)
@@ -67,7 +68,14 @@ def shard(binpath, seed, sh, n):
             steps.append(scen.mk_step(name, thr, [W.kid(k) for k in auth], [], [["ALLOW", "*"]], [["ALLOW", "*"]]))
             plan.append({"name": name, "threshold": thr, "auth": auth})
         layout = scen.mk_layout(W, table, steps, [])
-        sc = {"layout": layout, "plan": plan, "table": table, "files": [], "clean": clean_positive}
+        wk = None
+        if weird and not clean_positive and rng.random() < 0.3:
+            # a functionary whose key declares an unknown scheme is listed and authorised for every step
+            wk = rng.choice(weird)
+            layout["keys"][wk["keyid"]] = wk["pub"]
+            for st in layout["steps"]:
+                st["pubkeys"].append(wk["keyid"])
+        sc = {"layout": layout, "plan": plan, "table": table, "files": [], "clean": clean_positive, "weird": wk}
         base = len(reqs)
         reqs.append((layout, ["ed0"], "new"))
         for si, p in enumerate(plan):
@@ -151,6 +159,17 @@ def shard(binpath, seed, sh, n):
                     per_step[f["step"]]["keys"].add(o)
             per_step[f["step"]]["count"] = len(per_step[f["step"]]["keys"])
             per_step[f["step"]]["states"][k] = st + ("" if authorised else "(unauth)")
+        if sc.get("weird"):
+            # for every step: a file under the weird key's prefix, validly signed by an outsider and carrying an
+            # entry labelled with the weird key's id -- nothing can verify under an unknown scheme, so it never counts
+            for p in sc["plan"]:
+                donor = next((wires[f["req"]] for f in sc["files"] if f["step"] == p["name"] and wires[f["req"]]["signatures"]), None)
+                if donor is None:
+                    continue
+                w = copy.deepcopy(donor)
+                w["signatures"].append({"keyid": sc["weird"]["keyid"], "sig": rng.choice(["ab" * 64, w["signatures"][0]["sig"], "00" * 256])})
+                files[f"{p['name']}.{sc['weird']['keyid'][:8]}.link"] = scen.dumps(w)
+                per_step[p["name"]]["states"]["<unknown-scheme key>"] = "entry_under_unknown_scheme_key"
         short = []
         for p in sc["plan"]:
             need = max(1, p["threshold"])
@@ -210,6 +229,7 @@ def main(ctx):
              "directory not empty; distinct by SHA-256 of (layout, directory)",
         assumptions=["ground truth of who validly signed what is by construction"],
         required=["positive_control_accepted", "expect:reject", "observed:reject", "state:valid(unauth)", "state:misfiled",
-                  "state:flipped", "state:edited", "state:double", "state:cosigned_broken_own", "decided_by_authorisation_rule", "threshold:0",
+                  "state:flipped", "state:edited", "state:double", "state:cosigned_broken_own", "state:entry_under_unknown_scheme_key",
+                  "decided_by_authorisation_rule", "threshold:0",
                   "threshold:2", "threshold:3"],
         min_evals=500)
